@@ -4,6 +4,7 @@
 //! The witness search never decides pass/fail (only the verifier does); it attaches failing inputs to red obligations.
 mod c01;
 mod c08;
+mod c15;
 
 pub fn report(obligation: &str, input: String, observed: String, expected: String) {
     println!(
@@ -19,6 +20,7 @@ fn main() {
     let n = match pid {
         "C01" => c01::run(seed),
         "C08" => c08::run(seed),
+        "C15" => c15::run(seed),
         _ => {
             eprintln!("no witness search for {pid}");
             0
